@@ -186,6 +186,42 @@ Proof.
   destruct (tau en); simpl in *; try discriminate; tauto.
 Qed.
 
+(* ---- a mask that is cast into the data's context before any arithmetic cannot influence any dtype *)
+Lemma eval_mask_irrelevant t m m' st e : mask_guarded e = true -> eval (mkenv t m) st e = eval (mkenv t m') st e.
+Proof.
+  induction e as [l|x|a IHa b IHb|a IHa b IHb|a IHa|a IHa|tg IHt v IHv]; simpl; intros H.
+  - destruct l; try reflexivity; discriminate.
+  - reflexivity.
+  - apply andb_prop in H. destruct H as [Ha Hb]. rewrite (IHa Ha), (IHb Hb). reflexivity.
+  - apply andb_prop in H. destruct H as [Ha Hb]. rewrite (IHa Ha), (IHb Hb). reflexivity.
+  - rewrite (IHa H). reflexivity.
+  - rewrite (IHa H). reflexivity.
+  - exact (IHt H).
+Qed.
+Lemma exec_mask_irrelevant t m m' b : block_guarded b = true -> forall st, exec (mkenv t m) st b = exec (mkenv t m') st b.
+Proof.
+  induction b as [|[x e] r IH]; intros H st; [reflexivity|].
+  unfold block_guarded in H. simpl in H. apply andb_prop in H. destruct H as [He Hr].
+  unfold exec. simpl. fold (exec (mkenv t m) (upd st x (eval (mkenv t m) st e)) r).
+  fold (exec (mkenv t m') (upd st x (eval (mkenv t m') st e)) r).
+  rewrite (eval_mask_irrelevant t m m' st e He). apply IH. exact Hr.
+Qed.
+Lemma iter_ext {A} (f g : A -> A) : (forall x, f x = g x) -> forall n x, iter n f x = iter n g x.
+Proof. intros H. induction n as [|n IH]; simpl; intros x; [reflexivity | rewrite H; apply IH]. Qed.
+Lemma run_mask_irrelevant t m m' p n : prog_guarded p = true -> run (mkenv t m) p n = run (mkenv t m') p n.
+Proof.
+  unfold prog_guarded. intros H. apply andb_prop in H. destruct H as [H Ho]. apply andb_prop in H. destruct H as [Hi Hb].
+  unfold run. rewrite (exec_mask_irrelevant t m m' _ Hi st0).
+  apply iter_ext. intros st. apply exec_mask_irrelevant. exact Hb.
+Qed.
+Theorem guarded_mask_irrelevant t m m' p n : prog_guarded p = true ->
+  out_dtypes (mkenv t m) p n = out_dtypes (mkenv t m') p n.
+Proof.
+  intros H. unfold out_dtypes. rewrite (run_mask_irrelevant t m m' p n H).
+  unfold prog_guarded in H. apply andb_prop in H. destruct H as [_ Ho]. rewrite forallb_forall in Ho.
+  apply map_ext_in. intros o Hin. rewrite (eval_mask_irrelevant t m m' _ _ (Ho o Hin)). reflexivity.
+Qed.
+
 (* ---- the modelled entry points *)
 Definition inits := [ISvd; IRandom; IUser].
 Definition proxes := [PNone; PNonneg; PL1; PL2; PL2sq; PUnimodal; PNormalize; PSimplex; PNormSparse; PSoftSparse;
@@ -194,24 +230,22 @@ Definition bools2 := [false; true].
 Definition families := [FParafac; FNNParafac; FNNParafacHals; FConstrained; FTucker; FPartialTucker; FNNTucker; FNNTuckerHals;
    FRobustPca; FProx; FHalsNnls; FFista; FActiveSet; FAdmm; FSvd; FCpNormalize; FPure; FRandom; FSampleKR; FIndexed; FPermute; FFlipSign;
    FRandParafac; FParafac2; FSvdChain; FTrAls; FTrAlsSampled; FTTCross; FCmtf; FPower; FCpReg; FTuckerReg; FPlsr; FMoment; FMetric; FCompress].
-(* all option combinations of all families except the documented float64 one (FLeverage); the active-set exception
-   fallback is excluded here and refuted below *)
+(* all option combinations of all families except the documented float64 one (FLeverage) *)
 Definition uses_prox (f : family) : bool := match f with FProx | FAdmm | FConstrained => true | _ => false end.
 Definition all_cfgs : list cfg :=
   flat_map (fun f => flat_map (fun i => flat_map (fun k =>
   flat_map (fun m => flat_map (fun er => flat_map (fun nz => flat_map (fun ls => flat_map (fun sp =>
-  flat_map (fun l2 => flat_map (fun w => map (fun alt =>
-     mkcfg f i m er nz ls sp l2 k w false alt) bools2) bools2) bools2) bools2) bools2) bools2) bools2) bools2)
+  flat_map (fun l2 => flat_map (fun w => flat_map (fun fb => map (fun alt =>
+     mkcfg f i m er nz ls sp l2 k w fb alt) bools2) bools2) bools2) bools2) bools2) bools2) bools2) bools2) bools2)
   (if uses_prox f then proxes else [PNone])) inits) families.
 Lemma In_bools2 b : In b bools2. Proof. destruct b; simpl; tauto. Qed.
 Lemma In_inits i : In i inits. Proof. destruct i; simpl; tauto. Qed.
-(* the enumeration is complete: every configuration without the active-set exception fallback, of a listed family,
-   with a proximal operator only where the family has one *)
+(* the enumeration is complete: every configuration of a listed family, with a proximal operator only where the family has one *)
 Definition valid_cfg (c : cfg) : Prop :=
-  c_fallback c = false /\ In (c_fam c) families /\ In (c_prox c) (if uses_prox (c_fam c) then proxes else [PNone]).
+  In (c_fam c) families /\ In (c_prox c) (if uses_prox (c_fam c) then proxes else [PNone]).
 Lemma all_cfgs_complete c : valid_cfg c -> In c all_cfgs.
 Proof.
-  destruct c as [f i m er nz ls sp l2 k w fb alt]. unfold valid_cfg. cbn [c_fallback c_fam c_prox]. intros [-> [Hf Hk]].
+  destruct c as [f i m er nz ls sp l2 k w fb alt]. unfold valid_cfg. cbn [c_fam c_prox]. intros [Hf Hk].
   unfold all_cfgs.
   apply in_flat_map. exists f. split; [exact Hf|].
   apply in_flat_map. exists i. split; [apply In_inits|].
@@ -223,15 +257,17 @@ Proof.
   apply in_flat_map. exists sp. split; [apply In_bools2|].
   apply in_flat_map. exists l2. split; [apply In_bools2|].
   apply in_flat_map. exists w. split; [apply In_bools2|].
+  apply in_flat_map. exists fb. split; [apply In_bools2|].
   apply in_map. apply In_bools2.
 Qed.
 
 (* real outputs only: strip integer index outputs *)
 Definition float_outs (p : prog) : prog := mkprog (p_init p) (p_body p) (filter float_out (p_outs p)).
 
-(* a mask in the data's dtype (or no mask): every configuration of every family passes the check, in all four contexts *)
+(* a mask in the data's dtype (or no mask): every configuration of every family passes the check, in all four contexts,
+   for the code with and without the mask cast *)
 Lemma all_skeletons_ok_b :
-  forallb (fun t => forallb (fun c => prog_ok (mkenv t t) (float_outs (skeleton c))) all_cfgs) ctxs = true.
+  forallb (fun mc => forallb (fun t => forallb (fun c => prog_ok (mkenv t t) (float_outs (skeleton_v mc c))) all_cfgs) ctxs) bools2 = true.
 Proof. vm_compute. reflexivity. Qed.
 
 Lemma float_outs_In s e p : In (s, e) (p_outs p) -> float_out (s, e) = true -> In (s, e) (p_outs (float_outs p)).
@@ -239,16 +275,22 @@ Proof. intros H1 H2. unfold float_outs. simpl. apply filter_In. split; assumptio
 
 Lemma run_float_outs en p n : run en (float_outs p) n = run en p n. Proof. reflexivity. Qed.
 
+Theorem skeletons_v_preserve_precision mc t c n s e :
+  In t ctxs -> valid_cfg c -> In (s, e) (p_outs (skeleton_v mc c)) -> float_out (s, e) = true ->
+  strongP t (eval (mkenv t t) (run (mkenv t t) (skeleton_v mc c) n) e) = true.
+Proof.
+  intros Ht Hc Hin Hf. apply all_cfgs_complete in Hc.
+  pose proof all_skeletons_ok_b as H. rewrite forallb_forall in H. specialize (H mc (In_bools2 mc)).
+  rewrite forallb_forall in H. specialize (H t Ht).
+  rewrite forallb_forall in H. specialize (H c Hc).
+  rewrite <- run_float_outs. apply (prog_precision_preserved (mkenv t t) (float_outs (skeleton_v mc c)) Ht H n s e).
+  apply float_outs_In; assumption.
+Qed.
+
 Theorem skeletons_preserve_precision t c n s e :
   In t ctxs -> valid_cfg c -> In (s, e) (p_outs (skeleton c)) -> float_out (s, e) = true ->
   strongP t (eval (mkenv t t) (run (mkenv t t) (skeleton c) n) e) = true.
-Proof.
-  intros Ht Hc Hin Hf. apply all_cfgs_complete in Hc.
-  pose proof all_skeletons_ok_b as H. rewrite forallb_forall in H. specialize (H t Ht).
-  rewrite forallb_forall in H. specialize (H c Hc).
-  rewrite <- run_float_outs. apply (prog_precision_preserved (mkenv t t) (float_outs (skeleton c)) Ht H n s e).
-  apply float_outs_In; assumption.
-Qed.
+Proof. exact (skeletons_v_preserve_precision mask_cast_now t c n s e). Qed.
 
 Corollary skeletons_preserve_context t c n s e :
   is_real t = true -> valid_cfg c -> In (s, e) (p_outs (skeleton c)) -> float_out (s, e) = true ->
@@ -258,44 +300,80 @@ Proof.
   clear - Hr. destruct t; try discriminate Hr; simpl; tauto.
 Qed.
 
+(* ---- with the mask cast (mc = true) every skeleton is mask-guarded, hence clean for EVERY mask dtype *)
+Lemma cast_skeletons_guarded_b : forallb (fun c => prog_guarded (skeleton_v true c)) all_cfgs = true.
+Proof. vm_compute. reflexivity. Qed.
+
+Lemma out_dtypes_In en p n s e : In (s, e) (p_outs p) -> In (s, eval en (run en p n) e) (out_dtypes en p n).
+Proof. intros H. unfold out_dtypes. apply (in_map (fun o => (fst o, eval en (run en p n) (snd o))) _ _ H). Qed.
+
+Theorem cast_skeletons_any_mask t m c n s e :
+  In t ctxs -> valid_cfg c -> In (s, e) (p_outs (skeleton_v true c)) -> float_out (s, e) = true ->
+  strongP t (eval (mkenv t m) (run (mkenv t m) (skeleton_v true c) n) e) = true.
+Proof.
+  intros Ht Hc Hin Hf. pose proof (all_cfgs_complete c Hc) as Hc'.
+  pose proof cast_skeletons_guarded_b as G. rewrite forallb_forall in G. specialize (G c Hc').
+  rewrite (run_mask_irrelevant t m t _ n G).
+  assert (Ge : mask_guarded e = true).
+  { unfold prog_guarded in G. apply andb_prop in G. destruct G as [_ Go]. rewrite forallb_forall in Go. exact (Go (s, e) Hin). }
+  rewrite (eval_mask_irrelevant t m t _ e Ge).
+  exact (skeletons_v_preserve_precision true t c n s e Ht Hc Hin Hf).
+Qed.
+
 (* ---- refutations: what breaks a float32 context *)
 Definition cfg0 (f : family) := mkcfg f IRandom false false false false false false PNone false false false.
 Definition with_mask (c : cfg) := mkcfg (c_fam c) (c_init c) true (c_errors c) (c_normalize c) (c_linesearch c) (c_sparsity c)
                                         (c_l2reg c) (c_prox c) (c_warm c) (c_fallback c) (c_alt c).
-Definition out_of (en : env) (c : cfg) (n : nat) (s : string) : option dt :=
-  match find (fun o => String.eqb (fst o) s) (out_dtypes en (skeleton c) n) with Some o => Some (snd o) | None => None end.
+Definition out_of_prog (en : env) (p : prog) (n : nat) (s : string) : option dt :=
+  match find (fun o => String.eqb (fst o) s) (out_dtypes en p n) with Some o => Some (snd o) | None => None end.
+Definition out_of_v (mc : bool) (en : env) (c : cfg) (n : nat) (s : string) : option dt := out_of_prog en (skeleton_v mc c) n s.
+Definition out_of (en : env) (c : cfg) (n : nat) (s : string) : option dt := out_of_prog en (skeleton c) n s.
 
+(* without the cast (mc = false) a boolean / integer mask widens float32 data *)
 Lemma parafac_bool_mask_refuted :
-  exists n, out_of (mkenv F32 B) (with_mask (cfg0 FParafac)) n "factors" = Some F64.
+  exists n, out_of_v false (mkenv F32 B) (with_mask (cfg0 FParafac)) n "factors" = Some F64.
 Proof. exists 2. vm_compute. reflexivity. Qed.
 Lemma parafac_int_mask_refuted :
-  exists n, out_of (mkenv F32 I64) (with_mask (cfg0 FParafac)) n "factors" = Some F64.
+  exists n, out_of_v false (mkenv F32 I64) (with_mask (cfg0 FParafac)) n "factors" = Some F64.
 Proof. exists 2. vm_compute. reflexivity. Qed.
 Lemma tucker_bool_mask_refuted :
-  exists n, out_of (mkenv F32 B) (with_mask (cfg0 FTucker)) n "core" = Some F64.
+  exists n, out_of_v false (mkenv F32 B) (with_mask (cfg0 FTucker)) n "core" = Some F64.
 Proof. exists 1. vm_compute. reflexivity. Qed.
 Lemma nn_parafac_bool_mask_refuted :
-  exists n, out_of (mkenv F32 B) (with_mask (cfg0 FNNParafac)) n "factors" = Some F64.
+  exists n, out_of_v false (mkenv F32 B) (with_mask (cfg0 FNNParafac)) n "factors" = Some F64.
 Proof. exists 2. vm_compute. reflexivity. Qed.
 Lemma svd_bool_mask_refuted :
-  exists n, out_of (mkenv F32 B) (with_mask (cfg0 FSvd)) n "out0" = Some F64.
+  exists n, out_of_v false (mkenv F32 B) (with_mask (cfg0 FSvd)) n "out0" = Some F64.
 Proof. exists 0. vm_compute. reflexivity. Qed.
-(* ... while robust_pca casts its mask into the data's context and is clean for EVERY mask dtype *)
+(* ... while robust_pca has always cast its mask into the data's context and is clean for EVERY mask dtype, in both variants *)
 Lemma robust_pca_any_mask_b :
-  forallb (fun t => forallb (fun m => prog_ok (mkenv t m) (skeleton (with_mask (cfg0 FRobustPca)))) all_dt) ctxs = true.
+  forallb (fun mc => forallb (fun t => forallb (fun m => prog_ok (mkenv t m) (skeleton_v mc (with_mask (cfg0 FRobustPca)))) all_dt) ctxs) bools2 = true.
 Proof. vm_compute. reflexivity. Qed.
-Lemma robust_pca_any_mask t m n s e : In t ctxs -> In (s, e) (p_outs (skeleton (with_mask (cfg0 FRobustPca)))) ->
-  strongP t (eval (mkenv t m) (run (mkenv t m) (skeleton (with_mask (cfg0 FRobustPca))) n) e) = true.
+Lemma robust_pca_any_mask mc t m n s e : In t ctxs -> In (s, e) (p_outs (skeleton_v mc (with_mask (cfg0 FRobustPca)))) ->
+  strongP t (eval (mkenv t m) (run (mkenv t m) (skeleton_v mc (with_mask (cfg0 FRobustPca))) n) e) = true.
 Proof.
-  intros Ht Hin. pose proof robust_pca_any_mask_b as H. rewrite forallb_forall in H. specialize (H t Ht).
+  intros Ht Hin. pose proof robust_pca_any_mask_b as H. rewrite forallb_forall in H. specialize (H mc (In_bools2 mc)).
+  rewrite forallb_forall in H. specialize (H t Ht).
   rewrite forallb_forall in H. specialize (H m (In_all_dt m)).
   exact (prog_precision_preserved (mkenv t m) _ Ht H n s e Hin).
 Qed.
 
+(* the exception fallback of active_set_nnls before the repair c906acd (context-less restart vector) *)
 Definition active_fallback := mkcfg FActiveSet IRandom false false false false false false PNone true true false.
-Lemma active_set_fallback_refuted :
-  exists n, out_of (mkenv F32 F32) active_fallback n "out0" = Some F64.
+Lemma active_set_fallback_before_fix_refuted :
+  exists n, out_of_prog (mkenv F32 F32) (active_set_prog_before_c906acd active_fallback) n "out0" = Some F64.
 Proof. exists 1. vm_compute. reflexivity. Qed.
+Lemma active_set_fallback_now : forall n, out_of (mkenv F32 F32) active_fallback n "out0" = Some F32.
+Proof.
+  intros n.
+  assert (H : eval (mkenv F32 F32) (run (mkenv F32 F32) (skeleton active_fallback) n) X_ = F32).
+  { apply (skeletons_preserve_context F32 active_fallback n "out0" X_); try reflexivity.
+    - split; simpl; tauto.
+    - simpl. tauto. }
+  unfold out_of, out_of_prog, out_dtypes.
+  change (p_outs (skeleton active_fallback)) with [("out0", X_)].
+  cbn [map fst snd]. rewrite H. reflexivity.
+Qed.
 
 (* single offending leaves *)
 Example f64_leaf_breaks_f32 : eval (mkenv F32 F32) st0 (Op In_ bare) = F64. Proof. reflexivity. Qed.
